@@ -229,6 +229,16 @@ def a_dist_simple_noseats(rng):
     return (v,), dist_kwargs(rng, list(v))
 
 
+def a_dist_simple_noseats_mixed(rng):
+    """simple votes whose counts may be Fractions / Decimals (refusal paths of evaluators that round with the decimal module)"""
+    (v,), kw = a_dist_simple_noseats(rng)
+    if rng.random() < 0.5:
+        k = rng.choice(list(v))
+        if isinstance(v[k], int):
+            v[k] = rng.choice([Fraction(v[k]) + Fraction(1, 3), Decimal(v[k]) + Decimal('0.5')])
+    return (v,), kw
+
+
 def a_calc(rng):
     v = g_simple(rng, zero=False)
     kw = {}
@@ -638,6 +648,8 @@ def recipes():
     add(prop.QuotaDistributor, 'quota', lambda r: prop.QuotaDistributor(r.choice(['hare', 'droop']), on_overaward=r.choice(['error', 'ignore', 'subtract'])), 'evaluate', a_dist_simple)
     add(prop.PureProportionality, 'default', lambda r: prop.PureProportionality(), 'evaluate', a_dist_simple)
     add(prop.VotesPerSeat, 'cfg', lambda r: prop.VotesPerSeat(r.choice([3, 10, 25])), 'evaluate', a_dist_simple_noseats)
+    add(prop.VotesPerSeat, 'rounding', lambda r: prop.VotesPerSeat(r.choice([3, 10, Fraction(7, 2)]), rounding=r.choice(['ROUND_HALF_UP', 'ROUND_UP', 'ROUND_HALF_EVEN', 'ROUND_DOWN']),
+                                                        accept_equal=r.random() < 0.5), 'evaluate', a_dist_simple_noseats_mixed)
     add(prop.BiproportionalEvaluator, 'default', lambda r: prop.BiproportionalEvaluator(r.choice(['d_hondt', 'sainte_lague'])), 'evaluate', a_biprop)
     add(prop.BiproportionalEvaluator, 'seat-dict', lambda r: prop.BiproportionalEvaluator(r.choice(['d_hondt', 'sainte_lague'])), 'evaluate', a_biprop_dict)
     add(prop.BiproportionalEvaluator, 'apportioner-dict',
@@ -776,14 +788,22 @@ def call_once(obj, method, a, kw, limit=2, scramble=False):
         shown = [copy.deepcopy(v) for v in vals]
     except Exception:   # noqa
         shown = [None] * len(vals)
+    import decimal
+    dctx = decimal.getcontext().copy()
     r = common.call_impl(lambda: getattr(obj, method)(*a, **kw), limit)
     out = ('ok', cstr(r[1])) if r[0] == 'ok' else ('err', common.E_NAME.get(r[1], str(r[1])))
+    dnow = decimal.getcontext()
+    dchanged = [(f, getattr(dctx, f), getattr(dnow, f)) for f in ('prec', 'rounding', 'Emin', 'Emax', 'capitals', 'clamp') if getattr(dctx, f) != getattr(dnow, f)]
+    if dchanged or dict(dctx.traps) != dict(dnow.traps):
+        decimal.setcontext(dctx)          # put it back so that the rest of the run is not judged under a foreign context
     if scramble and r[0] == 'ok' and isinstance(r[1], (list, dict, set)) and not any(r[1] is v for v in vals):
         try:
             r[1].clear()
         except Exception:   # noqa
             pass
     mutated = []
+    if dchanged:
+        mutated.append('the decimal context of the calling thread: %s' % ', '.join('%s %s -> %s' % t for t in dchanged))
     for nm, v, b, s in zip(names, vals, before, shown):
         if fp(v) != b:
             mutated.append('%s: %s -> %s' % (nm, show(s) if s is not None else '?', show(v)))
@@ -896,6 +916,10 @@ def module_state():
             for pname, dv in live_defaults(fn):
                 if not isinstance(dv, (type(None), bool, int, float, str, bytes, Fraction, Decimal, types.FunctionType, type)):
                     st['%s.%s(%s=)' % (m.name, fn_name, pname)] = fp(dv)
+    # process-wide state the library shares with its caller: the thread's decimal context (precision, rounding mode, traps)
+    import decimal
+    c = decimal.getcontext()
+    st['decimal.getcontext()'] = fp((c.prec, c.rounding, c.Emin, c.Emax, c.capitals, c.clamp, sorted(str(t) for t, on in c.traps.items() if on)))
     return st
 
 
